@@ -72,6 +72,9 @@ pub fn families(a: &Args, rng: &mut Rng) -> Vec<Fam> {
     for t in complementary_derivatives_family(&pool) {
         v.push(Fam { t, fam: "fresh-manager" });
     }
+    for t in every_length_and_holes_family(&pool) {
+        v.push(Fam { t, fam: "every-length-lists-and-holes" });
+    }
     for t in redundant_loop_difference_family(&pool) {
         v.push(Fam { t, fam: "redundant-loop-difference" });
     }
